@@ -572,9 +572,10 @@ func replayCase(w *out.W, id string, g *gen, cfg planCfg, scope string, script .
 			}
 			switch {
 			case strings.Contains(err.Error(), "schemas when migration plan is scoped to one"):
-				// the recorded defect explains the rejection only when the two names differ, a
-				// table is dropped and a table is added or modified (C16_replay_code); any
-				// other "found N schemas" is a new violation
+				// the defect repaired by fix C16-planner-replay-rename (shallow rename of the
+				// replayed schema) explains the rejection only when the two names differ, a table
+				// is dropped and a table is added or modified (C16_replay_before_fix); any other
+				// "found N schemas" lands in its own class
 				cls = "replay-plan-rejected-schemas-unexplained"
 				if replayExplained(drv, cfg, state, next, desired.Schemas[0]) {
 					cls = "replay-plan-rejected-two-schemas"
@@ -661,13 +662,15 @@ func replayCase(w *out.W, id string, g *gen, cfg planCfg, scope string, script .
 
 // replayCaseLine: the model's view of one schema-scoped planning step (Qual/Replay.v):
 //
-//	deep q mode dev user  nobjs obj*  ncur (name enum)*  ndes (name enum)*  nmod name*
+//	q mode dev user  nobjs obj*  ncur (name enum)*  ndes (name enum)*  nmod name*
 //
 // [modified] is asked of the real differ (TableDiff on freshly built graphs, the replayed
 // one under the dev name); the object changes are the enum types dropped / modified / added.
 func replayCaseLine(drv *devDrv, cfg planCfg, cur, des []dtab, desS *schema.Schema) string {
-	curS := buildSchema(cfg.pg, drv.devName, cur)
-	ts := []string{"0", opt(cfg.q), "0", hx(drv.devName), hx(cfg.marker)}
+	// Planner.plan renames the replayed schema object itself (fix C16-planner-replay-rename):
+	// the differ sees the replayed tables and enum types under the desired name
+	curS := buildSchema(cfg.pg, cfg.marker, cur)
+	ts := []string{opt(cfg.q), "0", hx(drv.devName), hx(cfg.marker)}
 	type en struct {
 		name string
 		vals string
